@@ -1,5 +1,6 @@
 import RedactVerif.Proofs.Scan
 import RedactVerif.Proofs.Tokens
+import RedactVerif.Props.FactsConsts
 /-
 C07 — Redact and StripMarkers are exact, idempotent projections.
 
